@@ -89,3 +89,9 @@ CHECKS['C06'] = dict(
     text='2.5k (generated DOM, preference assignment) pairs per quick run (150k thorough): singles, pairs, minified preset and random full assignments of the 23 documented preferences; output must parse without logged syntax error, project like the DOM after the documented filters, keep the non-white-space tokens under layout-only assignments and return to the default bytes after useDefaults(); variables and the two special preferences have their own sub-checks. Exploration.',
     note='Trusted: the effect function (60 lines, from the Preferences docstring), DOM projection; numbers/hashes compared by value; emptiness = no declaration at any depth; indentSpecificities/lineNumbers only for no-exception and defaults-restore.',
 )
+
+CHECKS['C08'] = dict(
+    technique='exhaustive table + generated import chains against a reference precedence ladder (differential via probe bytes); round trip under target encodings',
+    text='Reference ladder (override > transport > BOM/@charset > referring sheet > UTF-8) decides the expected encoding of every sheet in import chains of depth 1-3 served by a recording fetcher; depth 1 exhaustive (override x transport x content x parent x delivery x fetcher result), deeper chains generated; observed through sheet.encoding and through probe bytes that decode differently under every candidate encoding. Entry points parseString/parseUrl/parseFile. Generated DOMs with non-ASCII content under 8 target encodings: encoding == @charset rule, cssText decodable, reparse gives the same projection.',
+    note='A BOM that is decoded under a non-UTF-8 override/transport encoding becomes three characters of text; those rows check only the reported encoding.',
+)
